@@ -275,7 +275,9 @@ fn options_prepare(options_cors_settings: Arc<Cors>) -> Prepare {
                     .status(StatusCode::FORBIDDEN)
                     .body(Bytes::from_static(b"CORS request denied"))
                     .expect("we know this is a good request.");
-                FatResponse::new(response, comprash::ServerCachePreference::Full)
+                // Never cached: the response cache stores under the request's URI, not under
+                // the internal `/./cors_*` one.
+                FatResponse::new(response, comprash::ServerCachePreference::None)
             };
         }
 
@@ -359,7 +361,9 @@ impl Extensions {
                     .status(StatusCode::FORBIDDEN)
                     .body(Bytes::from_static(b"CORS request denied"))
                     .expect("we know this is a good request.");
-                FatResponse::new(response, comprash::ServerCachePreference::Full)
+                // Never cached: the response cache stores under the request's URI, not under
+                // the internal `/./cors_*` one.
+                FatResponse::new(response, comprash::ServerCachePreference::None)
             }),
         );
         self.add_prepare_single("/./cors_options", options_prepare(Cors::empty().arc()));
